@@ -461,18 +461,14 @@ def delSlice (s : Sig) (c : Cfg) (k : SliceK) : Except Err Cfg :=
 /-- `__getattr__`; `dcFactory` says whether the callable is a dataclass whose field `n` uses a
     `default_factory`. -/
 def getAttr (s : Sig) (c : Cfg) (n : String) (dcFactory : Bool := false) : Except Err Val :=
-  match s.find? n with
-  | some p =>
-    if p.kind == .po || p.kind == .vp then .error .attributeError
-    else
-      match c.args.get? (.name n) with
-      | some v => .ok v
-      | none =>
-        if dcFactory then .error .valueError
-        else if p.dflt then .ok (Sig.dfltVal p) else .error .attributeError
+  match c.args.get? (.name n) with
+  | some v => .ok v       -- a stored string key is a keyword argument, whatever its name
   | none =>
-    match c.args.get? (.name n) with
-    | some v => .ok v
+    match s.find? n with
+    | some p =>
+      if p.kind == .po || p.kind == .vp then .error .attributeError
+      else if dcFactory then .error .valueError
+      else if p.dflt then .ok (Sig.dfltVal p) else .error .attributeError
     | none => if dcFactory then .error .valueError else .error .attributeError
 
 /-- `__setattr__`. -/
